@@ -46,7 +46,11 @@ def step (s : St) (line : String) : St × String :=
     match Flow.opStep s.cfg s.r (.mempool (o.list "txs")) with
     | some r => ({ s with r := r }, "ok")
     | none => ({ s with ok := false }, "start err")
-  | "drain" => (s, "ok")
+  | "drain" =>
+    let st := s.r.n.prod.store
+    let pend := match st.getBlock (st.height + 1) with | some b => b.data.txs.length | none => 0
+    let q := (s.r.n.q.disk.map (·.2.length)).foldl (· + ·) 0
+    (s, s!"ok inflight={pend + q}")
   | "reap" =>
     match Flow.opStep s.cfg s.r .reap with
     | some r => ({ s with r := r }, "reap " ++ observe s.r.n.prod.store.height r.n r.ws)
